@@ -10,7 +10,7 @@ CLAIMS = {
   note="trusted: reflect.Value accessor specs, xreflect.Type.Kind purity, environment invariant (FileEnv), operand well-formedness, go/ssa front end, SMT solvers. assumed: contract of isLiteralNumber, constants are never negative zero, the Value of a constant has the kind of its Type, compile functions only allocate. Not covered: shifts, &&/||, interface comparisons, dispatch, composition over expression trees (paper induction)",
   ref="DESIGN.md section 5 C01, section 4"),
  "C02": dict(
-  text="every closure created by the compile functions of assignment and compound assignment to a variable (var_set.go, var_ops.go: varSetConst, varSetExpr, var{Add,Sub,Mul,Quo,Rem,And,Or,Xor,Andnot}{Const,Expr}; about 5400 obligations) is proved to store Go's result of the operation, in the variable's kind, into the slot of the right frame / storage class / width, to evaluate the right-hand side exactly once, to return the next statement, and to leave every other slot, frame and heap cell unchanged; for all values and all environments",
+  text="every closure created by the compile functions of assignment and compound assignment to a variable (var_set.go, var_ops.go: varSetConst, varSetExpr, var{Add,Sub,Mul,Quo,Rem,And,Or,Xor,Andnot}{Const,Expr}; about 5400 obligations) is proved to store Go's result of the operation, in the variable's kind, into the slot of the right frame / storage class / width, to evaluate the right-hand side exactly once, to return the next statement, and to leave every other slot, frame and heap cell unchanged; for all values and all environments; a compile function that returns no statement (x += 0, x *= 1 ...) or another compile function's statement (x /= -1 -> x *= -1) is checked against the same equation, per kind and storage class",
   note="trusted: reflect.Value accessor/setter specs, double-rounding and narrow-division lemmas, xreflect.Type.Kind purity, go/ssa front end, SMT solvers. The dispatch of setVar / setPlace is under contract (each compile function is reached only under its own operator; no Go assignment operator with compatible operands ends in a compile error). Not covered (no contract): the closures for places other than variables (place_*.go) and for shift-assignments, varQuoPow2, multi-assignment ordering (assign2/assignMulti), IncDec, non-basic kinds of varSet* (closure partial), composition with the rest of the program",
   ref="DESIGN.md section 5 C02"),
  "C05": dict(
